@@ -339,10 +339,19 @@ func runCheck(args []string) int {
 		if _, ok := byKey[k]; ok {
 			continue
 		}
-		if perLabel[v.Harness+"|"+v.Label] >= 40 {
+		// The cap is per label AND per known finding the engine-side observations match, so that many
+		// instances of a known finding cannot crowd out a different violation that carries the same label.
+		bucket, limit := v.Harness+"|"+v.Label+"|new", 40
+		for ki := range known {
+			if known[ki].matches(id, v) {
+				bucket, limit = v.Harness+"|"+v.Label+"|"+known[ki].ID, 6
+				break
+			}
+		}
+		if perLabel[bucket] >= limit {
 			continue
 		}
-		perLabel[v.Harness+"|"+v.Label]++
+		perLabel[bucket]++
 		byKey[k] = v
 		order = append(order, k)
 	}
